@@ -364,6 +364,21 @@ def run_periods(ctx, i, k, probes):
                 multi += 1; ctx.key(("multi-transition-period", zid, p))
         pts += [p * P + rng.choice([0, P - 1, rng.randrange(P)]) for p in rng.sample(range(p_lo, p_hi), probes * 20)]
         rng.shuffle(pts)
+        # the first and last cache periods of the whole range (they stick out beyond the supported instants)
+        for t in (gen.INST_MIN_NS, gen.INST_MIN_NS + 1, gen.INST_MIN_NS + 5 * DAY, gen.INST_MIN_NS + 40 * DAY, gen.INST_MAX_NS, gen.INST_MAX_NS - 1, gen.INST_MAX_NS - 5 * DAY, gen.INST_MAX_NS - 40 * DAY):
+            ctx.ev(); ctx.counters["period_probes"] += 1
+            inst = gen.ns_inst(t)
+            try:
+                ra = zonewalk.rec_of(cached.get_zone_interval(inst)); rb = zonewalk.rec_of(plain.get_zone_interval(inst))
+                if ra != rb:
+                    ctx.V("C13:caching-zone-differs-from-wrapped-zone", f"{zid} at {t} (end of the supported range): caching zone returns {ra}, the zone it wraps returns {rb}", {"kind": "periods", "zone": zid, "t": t}, ra, rb)
+            except Exception as e:  # noqa: BLE001
+                ctx.exc(e)
+                try:
+                    plain.get_zone_interval(inst)
+                    ctx.V(f"C13:caching-zone-raises:{type(e).__name__}", f"{zid} at {t} (end of the supported range): the caching zone raised {e!r}; the zone it wraps answers", {"kind": "periods", "zone": zid, "t": t}, repr(e))
+                except Exception:  # noqa: BLE001
+                    pass
         import bisect
         for t in pts:
             if not (p_lo * P <= t < p_hi * P - 1): continue
@@ -477,19 +492,36 @@ def run_culture_state(ctx, rounds):
         def customise(c, k):
             f = c.date_time_format
             if k == 0: d = list(f.day_names); d[1] = "Lundi"; f.day_names = d
-            elif k == 1: m = list(f.month_names); m[2] = "Ventose"; f.month_names = m; f.month_genitive_names = m
+            elif k == 1:
+                m = f.month_names          # the usual way: take the list, edit it, set it back
+                if isinstance(m, list): m[2] = "Ventose"
+                else: m = list(m); m[2] = "Ventose"
+                f.month_names = m; f.month_genitive_names = list(m)
             elif k == 2: f.am_designator = "ante"; f.pm_designator = "post"
-            elif k == 3: d = list(f.abbreviated_day_names); d[1] = "Lu"; f.abbreviated_day_names = d
+            elif k == 3:
+                d = list(f.abbreviated_day_names); d[1] = "Lu"; f.abbreviated_day_names = d
+                am_ = f.abbreviated_month_names
+                if isinstance(am_, list): am_[2] = "Vnt"
+                else: am_ = list(am_); am_[2] = "Vnt"
+                f.abbreviated_month_names = am_
             else: f.long_date_pattern = "yyyy MMMM dd"
         probes = [(T.LocalDatePattern, "dddd d MMMM", LocalDate(2024, 3, 4)), (T.LocalDatePattern, "ddd MMM", LocalDate(2024, 3, 4)), (T.LocalTimePattern, "hh:mm tt", LocalTime(9, 30, 15)),
-                  (T.LocalDateTimePattern, "dddd MMMM d hh tt", LocalDateTime(2024, 3, 4, 21, 30, 15)), (T.LocalDatePattern, "D", LocalDate(2024, 3, 4))]
+                  (T.LocalDateTimePattern, "dddd MMMM d hh tt", LocalDateTime(2024, 3, 4, 21, 30, 15)), (T.LocalDatePattern, "D", LocalDate(2024, 3, 4)),
+                  (T.LocalDatePattern, "MMMM yyyy", LocalDate(2024, 3, 4)), (T.LocalDatePattern, "MMM yyyy", LocalDate(2024, 3, 4))]
         for r in range(max(6, rounds // 4)):
             nm = rng.choice(names + ["en-US", "fr-FR"])
             try:
-                used = CultureInfo(nm).clone(); fresh = CultureInfo(nm).clone()
+                used = CultureInfo(nm).clone() if r % 2 else CultureInfo(nm); fresh = CultureInfo(nm).clone() if r % 2 else CultureInfo(nm)
             except Exception as e:  # noqa: BLE001
                 ctx.exc(e); continue
             if getattr(used, "is_read_only", False): continue
+            def untouched_texts():
+                out_ = []
+                for P_, spec, v in probes:
+                    try: out_.append(P_.create(spec, CultureInfo(nm)).format(v))
+                    except Exception as e: out_.append(repr(e)[:60])  # noqa: BLE001,E701
+                return out_
+            base_texts = untouched_texts()
             order = rng.sample(range(5), 5)
             for k in order:
                 for P_, spec, v in probes:            # use it first (whatever is cached is cached now) ...
@@ -509,6 +541,13 @@ def run_culture_state(ctx, rounds):
                         ctx.V(f"C13:pattern-ignores-culture-change:{P_.__name__}", f"{P_.__name__}.create({spec!r}, <writable {nm!r} culture, used before and then customised (step {k})>) writes {got!r}; an identically customised culture that "
                               f"was never used writes {want!r}", {"kind": "culture", "culture": nm, "spec": spec}, got, want)
                 fresh = fresh.clone() if hasattr(fresh, "clone") else fresh      # keep `fresh` unused: work on a new copy next time
+            # a culture object created now, and never customised, is unaffected by what was done to the other objects
+            now_texts = untouched_texts()
+            ctx.ev(); ctx.counters["mutable_culture_formats"] += 1
+            if now_texts != base_texts:
+                j_ = next(i for i in range(len(probes)) if now_texts[i] != base_texts[i])
+                ctx.V("C13:customisation-leaks-to-other-culture-objects", f"after customising one writable {nm!r} culture object, a brand-new CultureInfo({nm!r}) formats {probes[j_][1]!r} as {now_texts[j_]!r}; before the customisation it gave {base_texts[j_]!r}",
+                      {"kind": "culture", "culture": nm}, now_texts[j_], base_texts[j_])
     finally:
         CultureInfo.current_culture = saved
     ctx.sample({"kind": "culture-state", "rounds": rounds})
